@@ -749,12 +749,13 @@ fn oracle(c: &Case) -> Vec<(String, String)> {
     fails
 }
 
-fn scripts() -> Vec<(Option<u32>, [Rule; 3], Script)> {
+fn scripts() -> Vec<(&'static str, Option<u32>, [Rule; 3], Script)> {
     let base = [Rule::Req(0), Rule::Req(1), Rule::Req(2)];
     let p = Prop { rules: [Rule::Req(3), Rule::Req(4), Rule::Req(5)], delay: Some(7) };
     vec![
         // the finding witness: a stranger confirms the recovery role's timed proposal after the delay
         (
+            "finding_witness",
             Some(2),
             base,
             vec![
@@ -767,6 +768,7 @@ fn scripts() -> Vec<(Option<u32>, [Rule; 3], Script)> {
         ),
         // the documented flows
         (
+            "documented_flows",
             Some(2),
             base,
             vec![
@@ -784,6 +786,7 @@ fn scripts() -> Vec<(Option<u32>, [Rule; 3], Script)> {
         ),
         // the largest configurable delay
         (
+            "max_delay",
             Some(u32::MAX),
             base,
             vec![
@@ -794,6 +797,7 @@ fn scripts() -> Vec<(Option<u32>, [Rule; 3], Script)> {
             ],
         ),
         (
+            "stop_cancel_timer",
             Some(5),
             base,
             vec![
@@ -808,6 +812,251 @@ fn scripts() -> Vec<(Option<u32>, [Rule; 3], Script)> {
             ],
         ),
     ]
+    .into_iter()
+    .chain(boundary_scripts())
+    .collect()
+}
+
+/// Deterministic boundary family (identical for every seed): every comparison of the state machine on
+/// both sides and at equality, every error path, every role on every method, unusual state combinations.
+fn boundary_scripts() -> Vec<(&'static str, Option<u32>, [Rule; 3], Script)> {
+    let base = [Rule::Req(0), Rule::Req(1), Rule::Req(2)];
+    let p = Prop { rules: [Rule::Req(3), Rule::Req(4), Rule::Req(5)], delay: Some(7) };
+    // proposals differing from p in exactly one component
+    let p_delay = Prop { rules: p.rules, delay: Some(8) };
+    let p_nodelay = Prop { rules: p.rules, delay: None };
+    let p_r0 = Prop { rules: [Rule::Req(0), Rule::Req(4), Rule::Req(5)], delay: Some(7) };
+    let p_r1 = Prop { rules: [Rule::Req(3), Rule::Req(0), Rule::Req(5)], delay: Some(7) };
+    let p_r2 = Prop { rules: [Rule::Req(3), Rule::Req(4), Rule::Allow], delay: Some(7) };
+    let q = Prop { rules: [Rule::Req(5), Rule::Req(3), Rule::Req(4)], delay: None };
+    let near = [p_delay.clone(), p_nodelay.clone(), p_r0.clone(), p_r1.clone(), p_r2.clone()];
+    let mut out: Vec<(&'static str, Option<u32>, [Rule; 3], Script)> = Vec::new();
+
+    // proposal equality in quick confirm (primary's and recovery's proposal, timed and untimed), stop, timed confirm
+    let mut sc: Script = vec![(vec![0], 0, Meth::InitRec(Pr::Primary, p.clone())), (vec![1], 0, Meth::InitRec(Pr::Recovery, p.clone()))];
+    for n in &near {
+        sc.push((vec![1], 0, Meth::QuickRec(Pr::Primary, n.clone())));
+        sc.push((vec![0], 0, Meth::QuickRec(Pr::Recovery, n.clone())));
+        sc.push((vec![2], 0, Meth::Stop(n.clone())));
+        sc.push((vec![1], 0, Meth::Timed(n.clone())));
+    }
+    sc.push((vec![2], 0, Meth::Stop(p.clone())));
+    for n in &near {
+        sc.push((vec![2], 0, Meth::QuickRec(Pr::Recovery, n.clone()))); // untimed now
+    }
+    sc.push((vec![2], 0, Meth::QuickRec(Pr::Recovery, p.clone())));
+    out.push(("bf_proposal_equality", Some(0), base, sc));
+
+    // cancel clears exactly the addressed slot
+    out.push((
+        "bf_cancel_right_slot",
+        Some(3),
+        base,
+        vec![
+            (vec![0], 0, Meth::InitRec(Pr::Primary, p.clone())),
+            (vec![1], 0, Meth::InitRec(Pr::Recovery, q.clone())),
+            (vec![0], 0, Meth::InitWd(Pr::Primary)),
+            (vec![1], 0, Meth::InitWd(Pr::Recovery)),
+            (vec![0], 0, Meth::CancelRec(Pr::Primary)),
+            (vec![0], 0, Meth::CancelRec(Pr::Primary)),
+            (vec![0], 0, Meth::InitRec(Pr::Primary, p.clone())),
+            (vec![1], 0, Meth::CancelRec(Pr::Recovery)),
+            (vec![1], 0, Meth::CancelRec(Pr::Recovery)),
+            (vec![1], 0, Meth::InitRec(Pr::Recovery, q.clone())),
+            (vec![0], 0, Meth::CancelWd(Pr::Primary)),
+            (vec![0], 0, Meth::CancelWd(Pr::Primary)),
+            (vec![0], 0, Meth::InitWd(Pr::Primary)),
+            (vec![1], 0, Meth::CancelWd(Pr::Recovery)),
+            (vec![1], 0, Meth::CancelWd(Pr::Recovery)),
+            (vec![1], 0, Meth::CancelRec(Pr::Primary)), // wrong role
+            (vec![0], 0, Meth::CancelRec(Pr::Recovery)),
+            (vec![2], 0, Meth::CancelWd(Pr::Primary)),
+        ],
+    ));
+
+    // the timer: one minute before, exactly at, one minute after allowed_after; delays 0, 1, 5
+    for (name, d) in [("bf_timer_delay0", 0u32), ("bf_timer_delay1", 1), ("bf_timer_delay5", 5)] {
+        let dd = d as i64;
+        let mut sc: Script = vec![(vec![1], 1, Meth::InitRec(Pr::Recovery, p.clone())), (vec![1], 0, Meth::Timed(p.clone()))];
+        if dd >= 2 {
+            sc.push((vec![1], dd - 1, Meth::Timed(p.clone()))); // allowed_after - 1
+            sc.push((vec![1], 1, Meth::Timed(p.clone()))); // exactly allowed_after
+        } else if dd == 1 {
+            sc.push((vec![1], 1, Meth::Timed(p.clone())));
+        }
+        // again, confirming one minute after the due time
+        sc.push((vec![4], 0, Meth::InitRec(Pr::Recovery, q.clone())));
+        sc.push((vec![4], dd + 1, Meth::Timed(q.clone())));
+        out.push((name, Some(d), base, sc));
+    }
+
+    // a locked primary role blocks create_proof in every combination of pending attempts; lock/unlock idempotent
+    out.push((
+        "bf_lock_blocks_proof",
+        None,
+        base,
+        vec![
+            (vec![0], 0, Meth::CreateProof),
+            (vec![1], 0, Meth::Unlock),
+            (vec![1], 0, Meth::Lock),
+            (vec![1], 0, Meth::Lock),
+            (vec![0], 0, Meth::CreateProof),
+            (vec![0], 0, Meth::InitRec(Pr::Primary, p.clone())),
+            (vec![0], 0, Meth::CreateProof),
+            (vec![0], 0, Meth::InitWd(Pr::Primary)),
+            (vec![0], 0, Meth::CreateProof),
+            (vec![1], 0, Meth::InitRec(Pr::Recovery, q.clone())),
+            (vec![0], 0, Meth::CreateProof),
+            (vec![1], 0, Meth::InitWd(Pr::Recovery)),
+            (vec![0], 0, Meth::CreateProof),
+            (vec![1], 0, Meth::CreateProof),
+            (vec![0, 1, 2], 0, Meth::CreateProof),
+            (vec![1], 0, Meth::Unlock),
+            (vec![0], 0, Meth::CreateProof),
+            (vec![1], 0, Meth::Lock),
+            // a completed recovery returns to the default state: unlocked, all attempts gone
+            (vec![2], 0, Meth::QuickRec(Pr::Primary, p.clone())),
+            (vec![3], 0, Meth::CreateProof),
+            (vec![4], 0, Meth::CancelRec(Pr::Recovery)),
+            (vec![3], 0, Meth::CancelWd(Pr::Primary)),
+        ],
+    ));
+
+    // every "already exists" / "does not exist" / "no timed recovery" error
+    out.push((
+        "bf_exists_errors",
+        None,
+        base,
+        vec![
+            (vec![1], 0, Meth::QuickRec(Pr::Primary, p.clone())),
+            (vec![0], 0, Meth::QuickRec(Pr::Recovery, p.clone())),
+            (vec![1], 0, Meth::QuickWd(Pr::Primary)),
+            (vec![0], 0, Meth::QuickWd(Pr::Recovery)),
+            (vec![0], 0, Meth::CancelRec(Pr::Primary)),
+            (vec![1], 0, Meth::CancelRec(Pr::Recovery)),
+            (vec![0], 0, Meth::CancelWd(Pr::Primary)),
+            (vec![1], 0, Meth::CancelWd(Pr::Recovery)),
+            (vec![1], 0, Meth::Timed(p.clone())),
+            (vec![1], 0, Meth::Stop(p.clone())),
+            (vec![0], 0, Meth::InitRec(Pr::Primary, p.clone())),
+            (vec![0], 0, Meth::InitRec(Pr::Primary, p.clone())),
+            (vec![0], 0, Meth::InitRec(Pr::Primary, q.clone())),
+            (vec![1], 0, Meth::InitRec(Pr::Recovery, p.clone())), // no delay configured: untimed
+            (vec![1], 0, Meth::InitRec(Pr::Recovery, q.clone())),
+            (vec![1], 5, Meth::Timed(p.clone())),
+            (vec![1], 0, Meth::Stop(p.clone())),
+            (vec![0], 0, Meth::InitWd(Pr::Primary)),
+            (vec![0], 0, Meth::InitWd(Pr::Primary)),
+            (vec![1], 0, Meth::InitWd(Pr::Recovery)),
+            (vec![1], 0, Meth::InitWd(Pr::Recovery)),
+        ],
+    ));
+
+    // every role (and a stranger) on every confirming method; the proposer must be refused
+    let mut sc: Script = Vec::new();
+    for who in [vec![0usize], vec![1], vec![2], vec![], vec![5]] {
+        sc.push((vec![0], 0, Meth::InitRec(Pr::Primary, p_nodelay.clone())));
+        sc.push((who.clone(), 0, Meth::QuickRec(Pr::Primary, p_nodelay.clone())));
+        sc.push((vec![1], 0, Meth::InitRec(Pr::Recovery, q.clone())));
+        sc.push((who.clone(), 0, Meth::QuickRec(Pr::Recovery, q.clone())));
+        sc.push((who.clone(), 0, Meth::Stop(q.clone())));
+        sc.push((who.clone(), 0, Meth::Lock));
+        sc.push((who.clone(), 0, Meth::Unlock));
+        sc.push((who.clone(), 0, Meth::Mint(vec![])));
+        sc.push((who.clone(), 0, Meth::SetRoleDirect(0, Rule::Allow)));
+    }
+    // rules are restored by proposals equal to the current rules where needed: use identical rule sets
+    out.push(("bf_roles_on_methods", Some(9), base, role_matrix_fix(sc, base)));
+
+    // badge withdrawal by each confirming role, and what remains possible afterwards
+    for (name, pr, conf) in [("bf_withdraw_primary_by_recovery", Pr::Primary, 1usize), ("bf_withdraw_primary_by_confirmation", Pr::Primary, 2), ("bf_withdraw_recovery_by_primary", Pr::Recovery, 0), ("bf_withdraw_recovery_by_confirmation", Pr::Recovery, 2)] {
+        let own = if pr == Pr::Primary { 0usize } else { 1 };
+        out.push((
+            name,
+            Some(1),
+            base,
+            vec![
+                (vec![conf], 0, Meth::QuickWd(pr)),
+                (vec![own], 0, Meth::InitWd(pr)),
+                (vec![own], 0, Meth::QuickWd(pr)),
+                (vec![1], 0, Meth::InitRec(Pr::Recovery, p.clone())),
+                (vec![0], 0, Meth::Mint(vec![1, 2])),
+                (vec![conf], 0, Meth::QuickWd(pr)),
+                (vec![], 5, Meth::Timed(p.clone())),
+                (vec![0], 0, Meth::CreateProof),
+                (vec![0, 1, 2], 0, Meth::InitRec(Pr::Primary, p.clone())),
+                (vec![], 0, Meth::ContributeFee(1)),
+                (vec![0], 0, Meth::BurnBadge(1)),
+                (vec![0], 0, Meth::Mint(vec![3])),
+            ],
+        ));
+    }
+
+    // recovery badges and the fee vault: first / repeated / burned ids, empty list; 0, exact and balance+1 withdrawals
+    out.push((
+        "bf_badges_and_fee",
+        None,
+        base,
+        vec![
+            (vec![0], 0, Meth::Mint(vec![])),
+            (vec![0], 0, Meth::Mint(vec![0])),
+            (vec![1], 0, Meth::Mint(vec![1, 2])),
+            (vec![0], 0, Meth::Mint(vec![3, 1])),
+            (vec![2], 0, Meth::Mint(vec![4])),
+            (vec![0], 0, Meth::BurnBadge(1)),
+            (vec![0], 0, Meth::BurnBadge(1)),
+            (vec![0], 0, Meth::BurnBadge(9)),
+            (vec![0], 0, Meth::Mint(vec![1])),
+            (vec![0], 0, Meth::Mint(vec![5])),
+            (vec![0], 0, Meth::WithdrawFee(0)),
+            (vec![], 0, Meth::ContributeFee(0)),
+            (vec![0], 0, Meth::WithdrawFee(0)),
+            (vec![0], 0, Meth::WithdrawFee(1)),
+            (vec![5], 0, Meth::ContributeFee(3)),
+            (vec![1], 0, Meth::WithdrawFee(1)),
+            (vec![0], 0, Meth::WithdrawFee(4)),
+            (vec![0], 0, Meth::WithdrawFee(3)),
+            (vec![0], 0, Meth::WithdrawFee(1)),
+        ],
+    ));
+
+    // rule sets with allow_all / deny_all and shared badges
+    out.push((
+        "bf_allow_deny_rules",
+        Some(0),
+        [Rule::Req(0), Rule::Req(0), Rule::Deny],
+        vec![
+            (vec![0], 0, Meth::InitRec(Pr::Primary, Prop { rules: [Rule::Allow, Rule::Deny, Rule::Req(2)], delay: None })),
+            // the same badge holds the primary and the recovery role: it may confirm as recovery
+            (vec![0], 0, Meth::QuickRec(Pr::Primary, Prop { rules: [Rule::Allow, Rule::Deny, Rule::Req(2)], delay: None })),
+            (vec![], 0, Meth::CreateProof),
+            (vec![], 0, Meth::InitWd(Pr::Primary)),
+            (vec![], 0, Meth::Lock),
+            (vec![2], 0, Meth::QuickWd(Pr::Primary)),
+            (vec![2], 0, Meth::CreateProof),
+        ],
+    ));
+    out
+}
+
+/// after a successful quick confirm in the role matrix the rules become the proposal's rules; the matrix
+/// uses proposals whose rule set equals the base rules so that the roles stay in place
+fn role_matrix_fix(sc: Script, base: [Rule; 3]) -> Script {
+    sc.into_iter()
+        .map(|(who, adv, m)| {
+            let fix = |mut p: Prop| {
+                p.rules = base;
+                p
+            };
+            let m = match m {
+                Meth::InitRec(pr, p) => Meth::InitRec(pr, fix(p)),
+                Meth::QuickRec(pr, p) => Meth::QuickRec(pr, fix(p)),
+                Meth::Stop(p) => Meth::Stop(fix(p)),
+                other => other,
+            };
+            (who, adv, m)
+        })
+        .collect()
 }
 
 fn main() {
@@ -817,7 +1066,7 @@ fn main() {
         args.seed,
         "random call sequences (8..28 calls) on fresh access controllers by callers proving subsets of 6 badges, with \
          minute-clock advances; half of the cases on a ledger at Anemone (v1 blueprint code), half at the latest protocol \
-         version (v2); 3 scripted cases per ledger (incl. the finding witness) and one case at the i32 minute horizon; \
+         version (v2); a deterministic boundary family of scripted cases per ledger (proposal equality in one field, cancel slots, timer at allowed_after -1/0/+1 for delays 0/1/5, lock x pending attempts, every error, every role on every method, withdrawals, badges and fee vault limits, allow/deny rules; incl. the finding witness) and one case at the i32 minute horizon; \
          non-trivial = at least one rule-set replacement or badge withdrawal happened; distinct by canonical text",
     );
     let mut cw = CaseWriter::new("RV.Corr.C40_run RV.Model.C40_AccessController RV.Model.C40_Tables", "check");
@@ -832,7 +1081,8 @@ fn main() {
         let w = &mut worlds[wi];
         let horizon = i + 2 >= total;
         let case = if k < sc.len() {
-            run_case(w, &mut rng, 0, Some(sc[k].clone()))
+            report.count(&format!("bf.{}", sc[k].0));
+            run_case(w, &mut rng, 0, Some((sc[k].1, sc[k].2, sc[k].3.clone())))
         } else if horizon {
             // the last case of each ledger runs at the end of the i32 minute clock
             let m0 = i32::MAX as i64 - 12;
@@ -905,9 +1155,23 @@ fn main() {
             coq_list(case.steps.iter().map(step_coq))
         ));
     }
+    // the deterministic family: every script on both ledgers, and every outcome kind it is built to reach
+    for (name, ..) in &sc {
+        report.floor(&format!("bf.{}", name), 2);
+    }
+    for key in [
+        "out.EMismatch", "out.EDelayNotElapsed", "out.ENoTimedFound", "out.EOpRequiresUnlocked", "out.ENoXrdFeeVault",
+        "out.(ERecAlreadyExists PPrimary", "out.(ERecAlreadyExists PRecovery", "out.(EWdAlreadyExists PPrimary",
+        "out.(ENoRecExists PPrimary", "out.(ENoRecExists PRecovery", "out.(ENoWdExists PPrimary", "out.(ENoWdExists PRecovery",
+        "out.ENoSuchMethod", "out.EOther",
+    ] {
+        report.floor(key, 2);
+    }
+    for key in ["ok.MTimedConfirm", "ok.MQuickRec", "ok.MQuickWd", "ok.MStopTimed", "ok.MCancelRec", "ok.MCancelWd", "ok.MLock", "ok.MUnlock", "ok.MMint", "ok.MBurnBadge", "ok.MContributeFee", "ok.MWithdrawFee", "ok.MCreateProof"] {
+        report.floor(key, 2);
+    }
     report.floor("rule_or_badge_changes", (total as u64) / 8);
     report.floor("out.EUnauthorized", (total as u64) / 2);
-    report.floor("ok.MTimedConfirm", 2);
     cw.write(&args.out, args.shards).unwrap();
     report.write(&args.out).unwrap();
 }
